@@ -145,6 +145,13 @@ func (w *World) rtPanic(fr *frame, pos token.Pos, msg string) {
 
 func (w *World) visitInstr(fr *frame, instr ssa.Instruction) continuation {
 	w.steps++
+	if w.steps-w.pathSteps0 > maxPathSteps && w.run != nil && w.logging {
+		// a single path that executes this many instructions does not terminate for practical purposes
+		// (e.g. a concrete endless loop in the code under test): inconclusive instead of hanging the run
+		w.pathSteps0 = w.steps
+		w.run.inconclusive = append(w.run.inconclusive, fmt.Sprintf("BOUND-HIT: path executed more than %d SSA instructions (endless loop?) at %s", int64(maxPathSteps), w.where(fr, instr.Pos())))
+		panic(pathEnd{"bound-hit"})
+	}
 	switch instr := instr.(type) {
 	case *ssa.DebugRef:
 
@@ -402,7 +409,7 @@ func (w *World) callSSA(caller *frame, callpos token.Pos, fn *ssa.Function, args
 		}
 		if fn.Blocks == nil {
 			if fn.Pkg != nil {
-				fn.Pkg.Build()
+				buildPackage(fn.Pkg)
 			}
 			if fn.Blocks == nil {
 				if w.inInit > 0 && fn.Signature.Results().Len() == 0 {
